@@ -400,7 +400,7 @@ PROPS = {
     "C07": {"props_module": "HdModel.Props.C07", "class_prefix": ["C07/"],
             "theorems": ["Hd.Server.C07_signal_completes", "Hd.Server.C07_signal_first", "Hd.Server.C07_ended_stays", "Hd.Server.C07_no_accept_after",
                          "Hd.Server.C07_all_told", "Hd.Server.C07_idle_closed", "Hd.Server.C07_inflight_kept",
-                         "Hd.Server.C07_inflight_completes", "Hd.Server.C07_partial_head_served"],
+                         "Hd.Server.C07_inflight_completes", "Hd.Server.C07_partial_head_served", "Hd.Server.C07_completed_for_good", "Hd.Server.C07_never_served_after"],
             "streams": [SRV_STREAM], "rule": SRV_RULE, "assumes": SRV_ASSUMES},
     "C09": {"props_module": "HdModel.Props.C09", "class_prefix": ["C09/"],
             "theorems": ["Hd.Server.C09_only_three_exits", "Hd.Server.C09_isolation", "Hd.Server.C09_cancelled_connect_harmless",
